@@ -17,8 +17,9 @@ EXTENDS Naturals, Integers, FiniteSets, Sequences, TLC
 
 CONSTANTS Timeout, Retry, MaxNow, MaxConn      \* connectionTimeout, connectionRetryTime, clock bound, connections created at most
 
-VARIABLES now, conns, dreg, areg, lastTry, path, listening
-vars == <<now, conns, dreg, areg, lastTry, path, listening>>
+VARIABLES now, conns, dreg, areg, lastTry, path, listening, dview, aview
+vars == <<now, conns, dreg, areg, lastTry, path, listening, dview, aview>>
+(* dview / aview: what the raft layer of the dialer / acceptor has been told (onNodeConnected / onNodeDisconnected)   *)
 (* conns: function id -> [dstate, astate, dlast, alast] : per TCP connection ever created, the state of the dialer's *)
 (*   and the acceptor's socket ("syn" | "est" | "dead" | "closed") and when each side last read something            *)
 (* dreg: id of the connection the dialer has as current (0 = none) with its state "connecting"/"connected"/"down"   *)
@@ -27,6 +28,7 @@ vars == <<now, conns, dreg, areg, lastTry, path, listening>>
 
 Ids == DOMAIN conns
 Init == now = 0 /\ conns = <<>> /\ dreg = [id |-> 0, st |-> "down"] /\ areg = 0 /\ lastTry = -100 /\ path = TRUE /\ listening = TRUE
+        /\ dview = FALSE /\ aview = FALSE
 
 NewId == Len(conns) + 1
 (* dialer tick: (re)connect if the current connection is down and the last attempt is old enough *)
@@ -35,9 +37,9 @@ Dial ==
   /\ lastTry' = now
   /\ IF path /\ ~listening
      THEN \* refused at once
-          /\ conns' = Append(conns, [d |-> "dead", a |-> "closed", dl |-> now, al |-> now]) /\ dreg' = [id |-> NewId, st |-> "connecting"]
-     ELSE /\ conns' = Append(conns, [d |-> "syn", a |-> "closed", dl |-> now, al |-> now]) /\ dreg' = [id |-> NewId, st |-> "connecting"]
-  /\ UNCHANGED <<now, areg, path, listening>>
+          /\ conns' = Append(conns, [d |-> "dead", a |-> "closed", dl |-> now, al |-> now, s |-> FALSE]) /\ dreg' = [id |-> NewId, st |-> "connecting"]
+     ELSE /\ conns' = Append(conns, [d |-> "syn", a |-> "closed", dl |-> now, al |-> now, s |-> FALSE]) /\ dreg' = [id |-> NewId, st |-> "connecting"]
+  /\ UNCHANGED <<now, areg, path, listening, dview, aview>>
 
 (* the kernel completes the handshake; the dialer learns it, says who it is; the acceptor registers the connection *)
 Establish ==
@@ -45,13 +47,14 @@ Establish ==
   /\ conns' = [conns EXCEPT ![dreg.id] = [@ EXCEPT !.d = "est", !.a = "est", !.dl = now, !.al = now]]
   /\ dreg' = [dreg EXCEPT !.st = "connected"]
   /\ areg' = dreg.id                         \* replaces whatever was registered (the old one is NOT closed)
+  /\ dview' = TRUE /\ aview' = TRUE          \* both raft layers are told "connected"
   /\ UNCHANGED <<now, lastTry, path, listening>>
 
 (* data flows: both sides read something (only over a live path) *)
 Traffic(id) ==
   /\ conns[id].d = "est" /\ conns[id].a = "est" /\ path
   /\ conns' = [conns EXCEPT ![id] = [@ EXCEPT !.dl = now, !.al = now]]
-  /\ UNCHANGED <<now, dreg, areg, lastTry, path, listening>>
+  /\ UNCHANGED <<now, dreg, areg, lastTry, path, listening, dview, aview>>
 
 (* a side notices: error / end of file on its socket, or read timeout *)
 DialerDrops ==
@@ -59,29 +62,41 @@ DialerDrops ==
   /\ \/ conns[dreg.id].d = "dead"
      \/ now - conns[dreg.id].dl > Timeout
   /\ dreg' = [dreg EXCEPT !.st = "down"]
-  /\ conns' = [conns EXCEPT ![dreg.id] = [@ EXCEPT !.d = "closed", !.a = IF @ = "est" /\ path THEN "dead" ELSE @]]
-  /\ UNCHANGED <<now, areg, lastTry, path, listening>>
+  \* (the other end learns of it unless the path is down or the connection is half-open: s)
+  /\ conns' = [conns EXCEPT ![dreg.id] = [@ EXCEPT !.d = "closed", !.a = IF @ = "est" /\ path /\ ~conns[dreg.id].s THEN "dead" ELSE @]]
+  /\ dview' = FALSE
+  /\ UNCHANGED <<now, areg, lastTry, path, listening, aview>>
 AcceptorDrops(id) ==
   /\ conns[id].a \in {"est", "dead"}
   /\ \/ conns[id].a = "dead"
      \/ now - conns[id].al > Timeout
-  /\ conns' = [conns EXCEPT ![id] = [@ EXCEPT !.a = "closed", !.d = IF @ = "est" /\ path THEN "dead" ELSE @]]
+  /\ conns' = [conns EXCEPT ![id] = [@ EXCEPT !.a = "closed", !.d = IF @ = "est" /\ path /\ ~conns[id].s THEN "dead" ELSE @]]
   /\ areg' = IF areg = id THEN 0 ELSE areg
-  /\ UNCHANGED <<now, dreg, lastTry, path, listening>>
+  \* only the death of the REGISTERED connection is reported; a replaced one that dies later concerns nobody
+  /\ aview' = IF areg = id THEN FALSE ELSE aview
+  /\ UNCHANGED <<now, dreg, lastTry, path, listening, dview>>
 
 (* environment *)
-Tick == now < MaxNow /\ now' = now + 1 /\ UNCHANGED <<conns, dreg, areg, lastTry, path, listening>>
+Tick == now < MaxNow /\ now' = now + 1 /\ UNCHANGED <<conns, dreg, areg, lastTry, path, listening, dview, aview>>
 Reset(id) == /\ conns[id].d \in {"est", "syn"} \/ conns[id].a = "est"
              /\ conns' = [conns EXCEPT ![id] = [@ EXCEPT !.d = IF @ \in {"est", "syn"} THEN "dead" ELSE @,
                                                           !.a = IF @ = "est" THEN "dead" ELSE @]]
-             /\ UNCHANGED <<now, dreg, areg, lastTry, path, listening>>
-BlackHole == path /\ path' = FALSE /\ UNCHANGED <<now, conns, dreg, areg, lastTry, listening>>
-Heal == ~path /\ path' = TRUE /\ UNCHANGED <<now, conns, dreg, areg, lastTry, listening>>
+             /\ UNCHANGED <<now, dreg, areg, lastTry, path, listening, dview, aview>>
+(* half-open (a middlebox lost its state): the dialer's end gets an error, the acceptor's end notices nothing ... *)
+HalfOpen(id) == /\ conns[id].d = "est" /\ conns[id].a = "est"
+                /\ conns' = [conns EXCEPT ![id] = [@ EXCEPT !.d = "dead", !.s = TRUE]]
+                /\ UNCHANGED <<now, dreg, areg, lastTry, path, listening, dview, aview>>
+(* ... until much later (late FIN / RST / keep-alive) *)
+LateEnd(id) == /\ conns[id].a = "est" /\ conns[id].d = "closed"
+               /\ conns' = [conns EXCEPT ![id] = [@ EXCEPT !.a = "dead"]]
+               /\ UNCHANGED <<now, dreg, areg, lastTry, path, listening, dview, aview>>
+BlackHole == path /\ path' = FALSE /\ UNCHANGED <<now, conns, dreg, areg, lastTry, listening, dview, aview>>
+Heal == ~path /\ path' = TRUE /\ UNCHANGED <<now, conns, dreg, areg, lastTry, listening, dview, aview>>
 AcceptorRestarts ==       \* the acceptor process restarts: its sockets die, its registry is empty
   /\ conns' = [id \in Ids |-> [conns[id] EXCEPT !.a = "closed", !.d = IF @ = "est" /\ path THEN "dead" ELSE @]]
-  /\ areg' = 0 /\ UNCHANGED <<now, dreg, lastTry, path, listening>>
+  /\ areg' = 0 /\ aview' = FALSE /\ UNCHANGED <<now, dreg, lastTry, path, listening, dview>>
 
-Faults == (\E id \in Ids : Reset(id)) \/ BlackHole \/ Heal \/ AcceptorRestarts
+Faults == (\E id \in Ids : Reset(id) \/ HalfOpen(id) \/ LateEnd(id)) \/ BlackHole \/ Heal \/ AcceptorRestarts
 Protocol == Dial \/ Establish \/ DialerDrops \/ (\E id \in Ids : Traffic(id) \/ AcceptorDrops(id))
 Next == Tick \/ Faults \/ Protocol
 Spec == Init /\ [][Next]_vars
@@ -99,5 +114,7 @@ Truthful ==
   /\ (areg # 0) => conns[areg].a \in {"est", "dead"}
 (* a connection over which nothing was read for longer than Timeout is dropped at the next opportunity: it is   *)
 (* never kept registered AND used for a successful send after that (the check runs inside send)                *)
+(* connect / disconnect notifications agree with the registry at every moment *)
+NotificationsMatch == dview = (dreg.st = "connected") /\ aview = (areg # 0)
 NoSecondRegistration == \A id \in Ids : (id # areg /\ id # dreg.id) => TRUE
 =============================================================================
